@@ -12,7 +12,7 @@ from .. import sched as S
 from .. import spec_ref as REF
 from .. import wire
 from ..compare import compare_scalars
-from . import C12, C13
+from . import C12, C13, C15, C16
 from .common import run_configs
 
 LEVEL = "other"
@@ -51,9 +51,15 @@ def body(ck, F, cfg):
     PR.check_ipp_args(ck, F, pv, rule="R18.2")
     PR.check_t(ck, F, pv, rule="R18.2")
     ipp.check_create(ck, F)
+    ipp.check_create_n1(ck, F)
     ipp.check_vs(ck, F, "R18.2")
     C12.body(ck, F, cfg)
     C13.body(ck, F, cfg)
+    # the circuit a statement denotes is part of what a recorded proof was made for: the variable/gate numbering of the
+    # allocation methods (C16's reference transitions) and the denotation of the expression operators (C15) are frozen too --
+    # a change made consistently in both roles keeps new proofs verifying but rejects the recorded ones
+    C16.body(ck, F, cfg)
+    C15.body(ck, F, cfg, parts=("ops", "eval"))
 
 
 def run(tier):
@@ -63,7 +69,7 @@ def run(tier):
         "the clone operations, RNG rekey label, challenge derivation (PRG type, 32 seed bytes, one draw), transcript encodings, generator-chain hash/domain/labels/PRG, Pedersen base derivation, "
         "proof field order and types, codec entry points and derive provenance -- is extracted from the program and compared entry by entry with spec/wire_manifest.json, frozen from the pinned "
         "reference revision. The reference schedule and reference formulas of C01/C02/C10/C12/C13 are re-evaluated: a change applied consistently to prover and verifier still differs from them.",
-        rule_text="R18.1 manifest equality (each entry is a wire constant: a difference changes bytes on the wire or derived challenges/generators); R18.2 reference schedule and formulas",
+        rule_text="R18.1 manifest equality (each entry is a wire constant: a difference changes bytes on the wire or derived challenges/generators); R18.2 reference schedule and formulas; C16 and C15 rules by reference (variable numbering and expression denotation of the reference revision)",
         not_decided=["acceptance/rejection of recorded proof bytes and bit-for-bit generator values (need execution; no fixtures are used)"],
         assumptions=["the pinned tree is the reference revision"],
     )
